@@ -32,13 +32,22 @@ impl vstd::std_specs::convert::FromSpecImpl<FormatVersion> for u8 { open spec fn
 impl From<FormatVersion> for u8 { #[verifier::external_body] fn from(v: FormatVersion) -> (r: u8) { unimplemented!() } }
 #[derive(Copy, Clone, PartialEq, Eq, Structural)] enum Ev { MkRoot, MkTables, SyncTables, SyncRoot, PersistV0(TreeType) }
 /// effect token (R15): what the directory contains and what creation has done so far
-struct Fx { ghost has_current: bool, ghost has_v1: bool, ghost log: Seq<Ev> }
+/// `has_root` / `has_tables`: folders an interrupted earlier creation may have left; `fault`: some file-system call reported an I/O error
+struct Fx { ghost has_current: bool, ghost has_v1: bool, ghost log: Seq<Ev>, ghost has_root: bool, ghost has_tables: bool, ghost fault: bool }
+spec fn dir_there(fx: Fx, w: Which) -> bool { if w == Which::Tables { fx.has_tables } else { fx.has_root } }
+spec fn same_files(a: Fx, b: Fx) -> bool { a.has_current == b.has_current && a.has_v1 == b.has_v1 }
+/// std::fs::create_dir_all: succeeds when the folder already exists; fails only on an I/O error
 #[verifier::external_body] fn create_dir_all(p: &PathBuf, Tracked(fx): Tracked<&mut Fx>) -> (r: Result<(), Error>)
-    ensures final(fx).has_current == old(fx).has_current, final(fx).has_v1 == old(fx).has_v1,
-        r is Ok ==> final(fx).log == old(fx).log.push(if p.w == Which::Tables { Ev::MkTables } else { Ev::MkRoot }), r is Err ==> final(fx).log == old(fx).log
+    ensures same_files(*final(fx), *old(fx)), final(fx).fault == (old(fx).fault || r is Err),
+        r is Ok ==> final(fx).log == old(fx).log.push(if p.w == Which::Tables { Ev::MkTables } else { Ev::MkRoot }) && dir_there(*final(fx), p.w), r is Err ==> final(fx).log == old(fx).log
+{ unimplemented!() }
+/// std::fs::create_dir: ALSO fails (AlreadyExists) when the folder is there
+#[verifier::external_body] fn create_dir(p: &PathBuf, Tracked(fx): Tracked<&mut Fx>) -> (r: Result<(), Error>)
+    ensures same_files(*final(fx), *old(fx)), dir_there(*old(fx), p.w) ==> r is Err, r is Err ==> (final(fx).fault || dir_there(*old(fx), p.w)), (old(fx).fault ==> final(fx).fault),
+        r is Ok ==> final(fx).log == old(fx).log.push(if p.w == Which::Tables { Ev::MkTables } else { Ev::MkRoot }) && dir_there(*final(fx), p.w), r is Err ==> final(fx).log == old(fx).log
 { unimplemented!() }
 #[verifier::external_body] fn fsync_directory(p: &PathBuf, Tracked(fx): Tracked<&mut Fx>) -> (r: Result<(), Error>)
-    ensures final(fx).has_current == old(fx).has_current, final(fx).has_v1 == old(fx).has_v1,
+    ensures final(fx).has_current == old(fx).has_current, final(fx).has_v1 == old(fx).has_v1, final(fx).fault == (old(fx).fault || r is Err),
         r is Ok ==> final(fx).log == old(fx).log.push(if p.w == Which::Tables { Ev::SyncTables } else { Ev::SyncRoot }), r is Err ==> final(fx).log == old(fx).log
 { unimplemented!() }
 struct Version { ghost id: u64, ghost tt: TreeType }
@@ -46,7 +55,7 @@ impl Version { #[verifier::external_body] fn new(id: u64, tt: TreeType) -> (r: S
 /// version::persist::persist_version (unit durability, C05.1): Ok <=> v<id> is durable and `current` names it
 #[verifier::external_body] fn persist_version(p: &PathBuf, v: &Version, Tracked(fx): Tracked<&mut Fx>) -> (r: Result<(), Error>)
     requires p.w == Which::Root
-    ensures final(fx).has_v1 == old(fx).has_v1, r is Ok ==> final(fx).has_current && final(fx).log == old(fx).log.push(Ev::PersistV0(v.tt)), r is Err ==> final(fx).log == old(fx).log
+    ensures final(fx).has_v1 == old(fx).has_v1, final(fx).fault == (old(fx).fault || r is Err), r is Ok ==> final(fx).has_current && final(fx).log == old(fx).log.push(Ev::PersistV0(v.tt)), r is Err ==> final(fx).log == old(fx).log
 { unimplemented!() }
 struct Config { path: PathBuf, kv_separation_opts: Option<KvOpts> }
 struct SequenceNumberCounter { ghost next: u64 }
@@ -105,7 +114,7 @@ impl TreeInner {
 //@ SUBST `Mutex :: default ( )` ==> `UnitLock::default()`
     fn create_new(config: Config/*+*/, Tracked(fx): Tracked<&mut Fx>/*-*/) -> /*+*/(r:/*-*/ Result<Self, Error>/*+*/)
         requires config.path.w == Which::Root
-        ensures r is Err ==> final(fx).log == old(fx).log,
+        ensures r is Err ==> final(fx).log == old(fx).log, final(fx).fault == (old(fx).fault || r is Err),
             // the in-memory tree only exists once the empty version 0 of the configured type is durable; ids start from scratch
             r is Ok ==> final(fx).has_current && final(fx).log == old(fx).log.push(Ev::PersistV0(wanted_type(config)))
                 && r->Ok_0.version_history.v.first.id == 0 && r->Ok_0.version_history.v.first.tt == wanted_type(config)
@@ -147,14 +156,18 @@ impl Tree {
 
 //@ FROM src/tree/mod.rs :: impl Tree :: fn create_new :: OBL C05.7
 //@ SUBST `use crate :: file :: { fsync_directory , TABLES_FOLDER } ;` ==> ``
-//@ SUBST `use std :: fs :: create_dir_all ;` ==> ``
+//@ SUBST `use std :: fs :: $1 ;` ==> ``
+//@ SUBST `create_dir ( $1 )` ==> `create_dir($1, Tracked(fx))`
 //@ SUBST `path . join ( TABLES_FOLDER )` ==> `path.join_tables()`
 //@ SUBST `create_dir_all ( $1 )` ==> `create_dir_all($1, Tracked(fx))`
 //@ SUBST `fsync_directory ( $1 )` ==> `fsync_directory($1, Tracked(fx))`
 //@ SUBST `TreeInner :: create_new ( config )` ==> `TreeInner::create_new(config, Tracked(fx))`
     fn create_new(config: Config/*+*/, Tracked(fx): Tracked<&mut Fx>/*-*/) -> /*+*/(r:/*-*/ Result<Self, Error>/*+*/)
         requires config.path.w == Which::Root
-        ensures r is Ok ==> final(fx).has_current
+        ensures
+            // creation can be redone after a crash: whatever an interrupted creation left behind, it fails only on an I/O error
+            r is Err ==> final(fx).fault || old(fx).fault,
+            r is Ok ==> final(fx).has_current
             // folders are made and synced - tables folder first, then the root - before version 0 is persisted
             && final(fx).log == old(fx).log + seq![Ev::MkRoot, Ev::MkTables, Ev::SyncTables, Ev::SyncRoot, Ev::PersistV0(wanted_type(config))],/*-*/
     {
